@@ -78,9 +78,40 @@ theorem parse_gen_counterexample_like_chain :
       = some ("(notlike (like (col u:a) (col u:b)) (col u:c))", "a NOT LIKE b NOT LIKE c",
               some "(notlike (paren (notlike (col u:a) (col u:b))) (col u:c))") := by decide +kernel
 
-/-- NEW FINDING: `bitwisenot_sql` has no guard like `neg_sql`'s: `~ ~ a` prints as `~~a`, and `~~` is one token (LIKE) -/
+/-- the guard shapes extracted from `neg_sql` / `bitwisenot_sql` of every dialect's generator are TEXT-based
+    (finite table, decided completely): the space decision looks at the operand's generated text -/
+theorem generated_guards_ok : ∀ t ∈ distinctTables, t.negGuard = .text ∧ t.bnotGuard = .text := by decide +kernel
+
+/-- with the text-based guard, whenever the printed operand starts with `-` the minus sign is kept apart from it,
+    for EVERY operand (also calls a dialect prints as an infix operator with a negated first argument) -/
+theorem neg_text_guard_separates (tbl : Tables) (e : Expr) (hg : tbl.negGuard = .text)
+    (hs : startsDash tbl (gen tbl e) = true) :
+    sql tbl (.neg e) = "-" ++ (" " ++ sql tbl e) := by
+  simp only [sql, gen, genI, hg, guardSep] at hs ⊢
+  simp [hs, text, printTok, kw]
+
+/-- same for `~` -/
+theorem bnot_text_guard_separates (tbl : Tables) (e : Expr) (hg : tbl.bnotGuard = .text)
+    (hs : startsTilde tbl (gen tbl e) = true) :
+    sql tbl (.bnot e) = "~" ++ (" " ++ sql tbl e) := by
+  simp only [sql, gen, genI, hg, guardSep] at hs ⊢
+  simp [hs, text, printTok, kw]
+
+example : startsDash baseTables (gen baseTables (.bin "Mod" (.neg (.col [("a", false)])) (.col [("b", false)]))) = true := by
+  decide +kernel
+
+/-- the NODE-based guard (`isinstance(operand, exp.Neg)`) is not enough: an operand that is not a Neg but whose text
+    starts with `-` (here `-a % b`, the way most dialects print `MOD(-a, b)`) glues into `--`, a line comment -/
+theorem neg_node_guard_counterexample :
+    sql { baseTables with negGuard := .node } (.neg (.bin "Mod" (.neg (.col [("a", false)])) (.col [("b", false)])))
+      = "--a % b" ∧
+    sql baseTables (.neg (.bin "Mod" (.neg (.col [("a", false)])) (.col [("b", false)]))) = "- -a % b" ∧
+    sql { baseTables with negGuard := .node } (.neg (.neg (.col [("a", false)]))) = "- -a" := by decide +kernel
+
+/-- without a guard `~ ~ a` printed `~~a`, one LIKE token (the defect fixed in the source by the text-based guard) -/
 theorem bitwisenot_glue_witness :
-    sql baseTables (.bnot (.bnot (.col [("a", false)]))) = "~~a" ∧
+    sql { baseTables with bnotGuard := .none } (.bnot (.bnot (.col [("a", false)]))) = "~~a" ∧
+    sql baseTables (.bnot (.bnot (.col [("a", false)]))) = "~ ~a" ∧
     sql baseTables (.neg (.neg (.col [("a", false)]))) = "- -a" := by decide +kernel
 
 /-- `format_time` returns its input when no character of it starts a mapping key -/
